@@ -94,14 +94,15 @@ Proof.
     apply andb_true_iff in IH. destruct IH as [L F]. rewrite L, F, N.eqb_refl. reflexivity.
 Qed.
 
-Theorem ops_matches_iff a b : ops_matches a b = true <-> a = b.
+Theorem ops_matches_iff a b : ops_matches a b = true <->
+  o_typ a = o_typ b /\ o_hash a = o_hash b /\ o_alg a = o_alg b /\ o_salt a = o_salt b.
 Proof.
-  destruct a as [t h al i s], b as [t' h' al' i' s']. unfold ops_matches. cbn. split.
+  unfold ops_matches. split.
   - intros H. repeat (apply andb_true_iff in H; destruct H as [H ?]).
     apply N.eqb_eq in H. repeat match goal with E : (_ =? _) = true |- _ => apply N.eqb_eq in E end.
-    repeat match goal with E : list_eqb _ _ = true |- _ => apply list_eqb_eq in E end. congruence.
-  - intros E. injection E as <- <- <- <- <-. rewrite !N.eqb_refl.
-    rewrite (proj2 (list_eqb_eq i i) eq_refl), (proj2 (list_eqb_eq s s) eq_refl). reflexivity.
+    repeat match goal with E : list_eqb _ _ = true |- _ => apply list_eqb_eq in E end. auto.
+  - intros [E1 [E2 [E3 E4]]]. rewrite E1, E2, E3, E4, !N.eqb_refl.
+    rewrite (proj2 (list_eqb_eq _ _) eq_refl). reflexivity.
 Qed.
 
 (* certificates *)
